@@ -651,7 +651,7 @@ def replay_one(r: Dict[str, Any]) -> List[Failure]:
             fails.append(Failure(sig, detail, r))
         return fails
     if kind == 'channel-open-params':
-        o = pair.run(C.window_case(r['role'], r['window'], r['max_pktsize']))
+        o = pair.run(C.window_case(r['role'], r['window'], r['max_pktsize'], dropbear=r.get('dropbear', False)))
     elif kind == 'limit':
         lc = [c for c in limit_cases() if c[0] == r['name'] and c[1] == r['role']][0]
         o2 = pair.run(run_limit_case(lc[1], lc[2]))
